@@ -357,6 +357,95 @@ sys.exit(0)
 """
 
 
+STAGED_SRC = r'''
+import importlib, json, sys
+first, texts = sys.argv[1], json.loads(sys.argv[2])
+import measured
+importlib.import_module("measured." + first)
+from measured import Unit
+def spec(u):
+    return [[u.prefix.base, u.prefix.exponent], [[f.name, e] for f, e in u.factors.items()]]
+def parse_all():
+    out = {}
+    for t in texts:
+        try:
+            out[t] = spec(Unit.parse(t))
+        except Exception as e:
+            out[t] = type(e).__name__
+    return out
+early = parse_all()            # with only one module imported (most texts do not resolve yet)
+import measured.systems        # now everything is registered
+late = parse_all()
+print(json.dumps(late))
+'''
+
+
+def history_layer(rep: report.Report, tier: str) -> None:
+    """Parsing must not depend on what was parsed before the rest of the modules were imported
+    ("every set of imported unit modules"): a staged process parses every registered symbol and
+    name with one module imported, imports the rest, parses again, and must then agree with a
+    process that imported everything first."""
+    import json as _json
+    import subprocess
+
+    import measured
+
+    texts = sorted(set(measured.Unit._by_symbol) | {n for n in measured.Unit._by_name if " " not in n})
+    ref = {}
+    for t in texts:
+        try:
+            u = measured.Unit.parse(t)
+            ref[t] = [[u.prefix.base, u.prefix.exponent], [[f.name, e] for f, e in u.factors.items()]]
+        except Exception as e:
+            ref[t] = type(e).__name__
+    firsts = ["si"] if tier == "quick" else ["si", "iec", "us", "avoirdupois", "energy", "metric"]
+    for first in firsts:
+        p = subprocess.run([report.REPO_PY, "-c", STAGED_SRC, first, _json.dumps(texts)], capture_output=True,
+                           text=True, timeout=300, cwd="/")
+        if p.returncode != 0:
+            raise symnum.HarnessError(f"staged parse process failed: {p.stderr[-400:]}")
+        late = _json.loads(p.stdout.strip().splitlines()[-1])
+        diff = [t for t in texts if late.get(t) != ref[t]]
+        rep.obligations += len(texts)
+        rep.discharged += len(texts) - len(diff)
+        rep.nontrivial.add(("staged", first))
+        for t in diff[:3]:
+            rep.violation("C13:history:parse-depends-on-earlier-parses", f"after importing measured.{first}, "
+                          f"parsing every symbol, then importing the rest, Unit.parse({t!r}) gives {late.get(t)} "
+                          f"instead of {ref[t]}", history_replay(first, diff[:20]))
+
+
+FRESH_SRC = r'''
+import json, sys, measured, measured.systems
+from measured import Unit
+out = {}
+for t in json.loads(sys.argv[1]):
+    try:
+        u = Unit.parse(t)
+        out[t] = [[u.prefix.base, u.prefix.exponent], [[f.name, e] for f, e in u.factors.items()]]
+    except Exception as e:
+        out[t] = type(e).__name__
+print(json.dumps(out))
+'''
+
+
+def history_replay(first: str, texts: List[str]) -> str:
+    return "import subprocess, json\n" + f"STAGED = {STAGED_SRC!r}\nFRESH = {FRESH_SRC!r}\n" + \
+        f"texts = {texts!r}\nfirst = {first!r}\n" + """
+p = subprocess.run([sys.executable, '-c', STAGED, first, json.dumps(texts)], capture_output=True, text=True)
+late = json.loads(p.stdout.strip().splitlines()[-1])
+f = subprocess.run([sys.executable, '-c', FRESH, json.dumps(texts)], capture_output=True, text=True)
+ref = json.loads(f.stdout.strip().splitlines()[-1])
+bad = [t for t in texts if late[t] != ref[t]]
+print('staged process:', {t: late[t] for t in bad})
+print('fresh process :', {t: ref[t] for t in bad})
+if bad:
+    print('REPRODUCED: the result of parsing depends on what was parsed before the modules were imported')
+    sys.exit(1)
+sys.exit(0)
+"""
+
+
 def main(tier: str, selftest_cases: int = 0) -> int:
     rep = report.Report(PID, tier, "other")
     orc = families.boot()
@@ -368,6 +457,8 @@ def main(tier: str, selftest_cases: int = 0) -> int:
     work.merge(rep, r1)
     # layer 2
     lexical(rep)
+    # layer 4: independence of parsing from the import / parse history
+    history_layer(rep, tier)
     # layer 3
     prefixes = [None] + sorted(measured.Prefix._by_name)
     units = sorted(measured.Unit._by_name)
